@@ -54,8 +54,8 @@ CheckC06(r, o, rec, out, Tc, cues) ==
 HasSetting(c, name) == \E k \in 1..Len(c.set) : c.set[k].n = name
 SettingOf(c, name) == c.set[CHOOSE k \in 1..Len(c.set) : c.set[k].n = name]
 
-\* paragraphs that show text
-TextParas(reg) == SelectSeq(reg.paras, LAMBDA p : ParaLines(p) # <<>>)
+\* a cue made of several paragraphs has an alignment to agree with only when all the paragraphs of its region(s) -
+\* including those that show nothing - have the same one
 AlignOk(c, paras) ==
   IF paras = <<>> \/ \E k \in 1..Len(paras) : paras[k].ta # paras[1].ta \/ paras[k].dir # paras[1].dir
   THEN TRUE                                      \* paragraphs of the cue disagree: no single alignment to demand
@@ -85,7 +85,7 @@ CheckInterval07(r, o, rec, out, T, Tc, cues, k) ==
       aligned == Flatten([j \in 1..Len(act) |-> act[j].lines]) = Tc[k]
       regs == SelectSeq(rec.snaps[k], LAMBDA reg : RegionLines(reg) # <<>>)
       perRegion == Len(act) = Len(regs) /\ \A j \in 1..Len(act) : act[j].lines = CpsOf(RegionLines(regs[j]))
-      allParas == Flatten([j \in 1..Len(regs) |-> TextParas(regs[j])])
+      allParas == Flatten([j \in 1..Len(rec.snaps[k]) |-> rec.snaps[k][j].paras])
   IN  IF ~certain \/ Tc[k] = <<>> \/ ~aligned THEN TRUE       \* text itself is C06's business
       ELSE
       /\ IF out.fmt = "srt" /\ out.tf = 0 THEN TRUE
@@ -103,7 +103,7 @@ CheckInterval07(r, o, rec, out, T, Tc, cues, k) ==
               /\ IF out.ta = 1
                  THEN IF out.lp = 1
                       THEN (IF ~perRegion THEN TRUE
-                            ELSE Chk(\A j \in 1..Len(act) : AlignOk(act[j], TextParas(regs[j])), r, o,
+                            ELSE Chk(\A j \in 1..Len(act) : AlignOk(act[j], regs[j].paras), r, o,
                                      "align_setting_disagrees_with_paragraph_alignment", <<k>>))
                       ELSE Chk(\A j \in 1..Len(act) : AlignOk(act[j], allParas), r, o,
                                "align_setting_disagrees_with_paragraph_alignment", <<k>>)
